@@ -125,7 +125,7 @@ func kindQuery(id int, kind string) []byte {
 }
 
 var capEvents = []string{"udp-ok", "udp-err", "udp-timeout", "udp-panic", "udp-small", "udp-malformed", "udp-d53tc", "tcp-d53tc",
-	"tcp-ok", "tcp-err", "tcp-panic", "tcp-small", "tcp-midframe", "tcp-idle-close", "tcp-timeout", "tcp-pipeline", "tcp-empty", "tcp-tinyframes"}
+	"tcp-ok", "tcp-err", "tcp-panic", "tcp-small", "tcp-midframe", "tcp-idle-close", "tcp-timeout", "tcp-pipeline", "tcp-empty", "tcp-tinyframes", "tcp-pipeline-abort"}
 
 func fireAndForgetUDP(addr string, p []byte) {
 	if c, err := net.Dial("udp", addr); err == nil {
@@ -171,6 +171,20 @@ func runCap(addr string, g *gateUpstream, k int, events []string) string {
 			_, _ = t.exchange(addr, []byte{1, 2, 3, 4, 5}, 300*time.Millisecond)
 			if t.c != nil {
 				t.c.Close()
+			}
+		case "tcp-pipeline-abort":
+			// three queries pipelined on one connection whose resolution runs into the request timeout; the client is gone
+			// (connection reset) long before the handlers try to write their answers
+			if c, err := net.DialTimeout("tcp", addr, time.Second); err == nil {
+				for j := 0; j < 3; j++ {
+					q := kindQuery(id+100*j, "timeout")
+					_, _ = c.Write(append(be16(len(q)), q...))
+				}
+				time.Sleep(20 * time.Millisecond)
+				if tc, ok := c.(*net.TCPConn); ok {
+					_ = tc.SetLinger(0)
+				}
+				c.Close()
 			}
 		case "tcp-empty":
 			// zero-length frames (length prefix 0x0000), several on one connection, then close
